@@ -295,6 +295,8 @@ def record(ctx, f, cfg):
         return "call:" + callee_def(t).rsplit("::", 1)[-1]
     w = D.Walker(f, b, cls, opaque_name=oname)
     its = [bb for bb, t in b.calls() if callee_is(t, "Iterator::next")]
+    if not its and _standalone_chain(ctx, f, b, cfg):
+        return
     if not its:
         ctx.violation("C01.record", "C01.record|standalone|no-loop", "the standalone stat slot does not iterate the controllers", b.loc(), config=cfg)
         return
@@ -434,3 +436,59 @@ def wiring(ctx, f, cfg):
         ctx.instance("C01.wiring/need_statistic", ns.path, {"rows": n, "constrained": ncon, "mismatches": mism[:3]}, "control_strategy == Reject => need_statistic()", not mism and ncon > 0, cfg)
         if mism or not ncon:
             ctx.violation("C01.wiring", "C01.wiring|need_statistic", "a Reject rule may be judged not to need statistics (it would read the no-op metric and admit everything)", ns.loc(), config=cfg)
+
+
+def _standalone_chain(ctx, f, b, cfg):
+    """Iterator-chain form of the standalone slot: controllers.iter().map(stat).filter(|s| !s.reuse_global()).for_each(|s| add_count(Pass, batch)).
+    Judged like the loop: the recording closure is fed through a filter whose predicate is exactly `!reuse_global()`, and it records the
+    batch count on the private writer.  Returns True if this form was recognised (and judged)."""
+    rb = f.raw(b)
+    rsl = Slicer(f, rb)
+    fe = [(bb, t) for bb, t in rb.calls() if callee_def(t).rsplit("::", 1)[-1] == "for_each" and t.get("arg_defs")]
+    if not fe:
+        return False
+    bb, t = fe[0]
+    recv = rsl.of_operand(t["args"][0])
+    rec = [f.bodies[d] for d in (t["arg_defs"][-1] if t["arg_defs"] else []) if d in f.bodies]
+    if not rec or not any_atom(recv, "call:get_traffic_controller_list_for"):
+        return False
+    # predicate of the filter on the way
+    preds = []
+    for b2, t2 in rb.calls():
+        if callee_def(t2).rsplit("::", 1)[-1] == "filter" and b2 in rb.dominators().get(bb, ()) :
+            preds += [f.bodies[d] for d in ((t2.get("arg_defs") or [[]])[-1]) if d in f.bodies]
+    okp = False
+    detail = {"filters": len(preds)}
+    for pc in preds:
+        pv = f.view(pc)
+        w = D.Walker(f, pv, make_classifier([]), opaque_name=lambda tt, a: "reuse_global" if callee_is(tt, "StandaloneStat::reuse_global") else "call:" + callee_def(tt).rsplit("::", 1)[-1])
+        paths = [p_ for p_ in w.walk(0, lambda x, env: None) if p_["outcome"][0] == "return"]
+        rows, atoms = D.table(paths, lambda p_, asg: "?" if p_["env"].get("_0") is None else ("kept" if D.ev(p_["env"]["_0"], asg) else "dropped"))
+        good = [(asg["opaque"].get("reuse_global"), outs) for asg, outs in rows if outs and "reuse_global" in asg["opaque"]]
+        okp = bool(good) and all(outs == {("dropped" if rg else "kept")} for rg, outs in good)
+        detail["predicate"] = "keeps exactly the statistics with !reuse_global()" if okp else "not `!reuse_global()`"
+    rv = f.view(rec[0])
+    s2 = Slicer(f, rv)
+    adds = [(x, tt) for x, tt in rv.calls() if prim_of(tt) == "add"]
+    okc = bool(adds)
+    # captured values keep their origin in the parent
+    up = {}
+    for blk in rb.blocks:
+        for st in blk["stmts"]:
+            if st["k"] == "assign" and st["rv"]["k"] == "agg" and st["rv"].get("closure") == rec[0].path:
+                for nm, o in zip(st["rv"].get("fields", []), st["rv"]["ops"]):
+                    up[nm] = rsl.of_operand(o)
+    for x, tt in adds:
+        r_ = s2.of_operand(tt["args"][0])
+        c_ = s2.of_operand(tt["args"][2])
+        for a_ in list(c_):
+            if a_.startswith("field:upvar."):
+                nm_ = a_[len("field:upvar."):]
+                c_ = c_ | up.get(nm_, set()) | up.get(nm_.replace("_ref__", "", 1), set())
+        okc = okc and any_atom(r_, "call:StandaloneStat::write_only_metric") and any_atom(c_, "call:SentinelInput::batch_count") and event_of(s2, tt) == "Pass"
+    detail["records_batch_on_private_writer"] = okc
+    ok = okp and okc
+    ctx.instance("C01.record/standalone", b.path, detail, "for every controller whose statistics are private (!reuse_global()): add_count(Pass, batch) on write_only_metric", ok, cfg)
+    if not ok:
+        ctx.violation("C01.record", "C01.record|standalone", "private windows are not fed exactly when the rule does not reuse the global window: %s" % detail, b.loc(), config=cfg)
+    return True
